@@ -63,10 +63,18 @@ def generate(rng, tier):
     P = pool(rng)
     n = 4000 if tier == "quick" else 60000
     cases = []
+    # pairs that differ by one unit in one component, around the values whose integers collide under CPython's hash
+    # (hash(-1) == hash(-2)): equality must compare the components, not a digest of them
+    near = [("DU -1 0 0 0 0 0", "DU -2 0 0 0 0 0"), ("DU 0 -1 0 0 0 0", "DU 0 -2 0 0 0 0"), ("DU 1 0 0 0 0 -1", "DU 1 0 0 0 0 -2"),
+            ("DU 2 -1 3 0 0 0", "DU 2 -2 3 0 0 0"), ("DU 0 5 0 0 -1 59", "DU 0 5 0 0 0 -2"), ("DU -1 -1 0 0 0 0", "DU -2 -1 0 0 0 0"),
+            ("DU 0 0 0 0 0 -1", "DU 0 0 0 0 0 -2"), ("DW -1", "DW -2"), ("DU 0 1 0 0 0 0", "DU 0 2 0 0 0 0")]
+    fixed = [(x, y) for x, y in near] + [(y, x) for x, y in near]
     for i in range(n):
         md = MODES[i % 4]
         a = rng.choice(P)
         b = respell(rng, a) if rng.random() < 0.3 else rng.choice(P)
+        if i < 4 * len(fixed):
+            a, b = fixed[i // 4]
         c = rng.choice(P)
         k = rng.choice([-3, -2, -1, 0, 1, 2, 3, 1000, -1000])
         kk = rng.choice([2, 3])
@@ -118,6 +126,8 @@ def judge(c):
     n = c.meta["n"]
     res = []
     for l, x, y in zip(c.lines, I, M[:n]):
+        if l.startswith("dhash ") and y == "0":
+            continue      # unequal keys may still collide (hash(-1) == hash(-2) in CPython); only equal keys bind
         if x != y:
             res.append(("disagree", "%s: implementation %r, model %r" % (l, x, y)))
     for i, o in enumerate(I):
